@@ -80,3 +80,60 @@ mod verif_demo_xlsbrec_c06_short {
         let _ = read_cells(&sheet(&[0u8; 16], &[0u8; 2], &[]), &[], &[]);
     }
 }
+#[cfg(test)]
+mod verif_demo_xlsbrec_c06_isst {
+    use super::*;
+    use crate::CellErrorType;
+    use std::io::{Cursor, Write};
+
+    /// a zip archive (stored) holding one file `s.bin` with the given BIFF12 record stream
+    fn zip_with(bin: &[u8]) -> ZipArchive<Cursor<Vec<u8>>> {
+        let mut w = zip::ZipWriter::new(Cursor::new(Vec::new()));
+        let opt = zip::write::SimpleFileOptions::default().compression_method(zip::CompressionMethod::Stored);
+        w.start_file("s.bin", opt).unwrap();
+        w.write_all(bin).unwrap();
+        ZipArchive::new(w.finish().unwrap()).unwrap()
+    }
+    /// one record: 1- or 2-byte type, 1-byte size, payload ([MS-XLSB] 2.1.4)
+    fn rec(typ: u16, payload: &[u8]) -> Vec<u8> {
+        let mut v = Vec::new();
+        if typ < 0x80 { v.push(typ as u8); } else { v.push((typ & 0x7F) as u8 | 0x80); v.push((typ >> 7) as u8); }
+        assert!(payload.len() < 0x80);
+        v.push(payload.len() as u8);
+        v.extend_from_slice(payload);
+        v
+    }
+    /// worksheet part: BrtBeginSheet, BrtWsDim (wsdim bytes), BrtBeginSheetData, BrtRowHdr(row 0), the cell records, BrtEndSheetData
+    fn sheet(wsdim: &[u8], rowhdr: &[u8], cells: &[Vec<u8>]) -> Vec<u8> {
+        let mut s = Vec::new();
+        s.extend(rec(0x0081, &[]));
+        s.extend(rec(0x0094, wsdim));
+        s.extend(rec(0x0091, &[]));
+        s.extend(rec(0x0000, rowhdr));
+        for c in cells { s.extend_from_slice(c); }
+        s.extend(rec(0x0092, &[]));
+        s
+    }
+    /// all cells `XlsbCellsReader` reports for the stream
+    fn read_cells(bin: &[u8], formats: &[CellFormat], strings: &[String]) -> Vec<((u32, u32), DataRef<'static>)> {
+        let mut z = zip_with(bin);
+        let it = RecordIter::from_zip(&mut z, "s.bin").unwrap();
+        let mut r = XlsbCellsReader::new(it, formats, strings, &[], &[], false).unwrap();
+        let mut got = Vec::new();
+        while let Some(c) = r.next_cell().unwrap() {
+            let v = match c.get_value() { DataRef::SharedString(s) => DataRef::String(s.to_string()), DataRef::Int(i) => DataRef::Int(*i),
+                DataRef::Float(f) => DataRef::Float(*f), DataRef::String(s) => DataRef::String(s.clone()), DataRef::Bool(b) => DataRef::Bool(*b),
+                DataRef::DateTime(d) => DataRef::DateTime(*d), DataRef::Error(e) => DataRef::Error(e.clone()), _ => DataRef::Empty };
+            got.push((c.get_position(), v));
+        }
+        got
+    }
+
+    // C06: BrtCellIsst indexes the shared string table with the index stored in the file, unchecked.
+    #[test]
+    #[should_panic]
+    fn verif_demo_xlsbrec_isst_out_of_range() {
+        // BrtCellIsst with isst = 5 and an empty shared string table: `self.strings[isst]`
+        let _ = read_cells(&sheet(&[0u8; 16], &[0u8; 17], &[rec(0x0007, &[0, 0, 0, 0, 0, 0, 0, 0, 5, 0, 0, 0])]), &[], &[]);
+    }
+}
